@@ -523,7 +523,7 @@ def jobs(tier: str):
     alphabet = ["accept", "receive", "receive_text", "receive_bytes", "send_text", "close", "raw_accept", "raw_close", "raw_send", "iter_text", "send_bytes"]
     for first in range(len(alphabet)):
         out.append(dict(name=f"seq/first={alphabet[first]}", kind="seq", ncalls=b["seq_calls_max"], nframes=b["frames_max"], first=first,
-                        alphabet=alphabet, bad_server=(tier == "thorough"), weight=50))
+                        alphabet=alphabet, weight=50))
     out.append(dict(name="twin/seq", kind="seq", ncalls=1, nframes=1, first=0, alphabet=alphabet, twin=True))
     out.append(dict(name="denial", kind="denial"))
     return out
